@@ -98,6 +98,9 @@ def gen_plan(seed: int, run: int, tier: str) -> dict:
         # workers and sweepers may hold a storage object that went through pickle (spawned
         # process, joblib/dask worker): it must behave like the original
         "pickled_storages": rng.random() < 0.3,
+        # trials put in the queue beforehand: whoever runs them (first, or as a retry after
+        # its worker died between two suggest calls) must get the enqueued values
+        "enqueued": [{"x": round(0.1 + 0.2 * i + 0.001 * rng.randint(0, 99), 6), "c": rng.choice(["a", "b"])} for i in range(rng.choice([0, 0, 1, 2]))],
         "heartbeat_interval": hb,
         "grace_period": grace,
         "max_retry": max_retry,
@@ -270,7 +273,10 @@ def _run(plan: dict, sim: sched.Sim, ch: sched.Chooser, dep: deploy.Deployment) 
         return _CachedStorage(st) if kind == "cached" else st
 
     st0 = make_storage(boot)
-    optuna.create_study(storage=st0, study_name="hb", sampler=optuna.samplers.RandomSampler(seed=0))
+    study0 = optuna.create_study(storage=st0, study_name="hb", sampler=optuna.samplers.RandomSampler(seed=0))
+    for fp in cfg.get("enqueued", []):
+        study0.enqueue_trial(dict(fp))
+        sim.count("enqueued_before_start")
     st0.remove_session()
     # the sweep region marker
     orig_sweep = hbmod.fail_stale_trials
@@ -467,11 +473,19 @@ def _run(plan: dict, sim: sched.Sim, ch: sched.Chooser, dep: deploy.Deployment) 
         for k, v in src.params.items():
             if r.params.get(k) != v or r.distributions.get(k) != src.distributions.get(k):
                 return viol("retry-params-differ", "retry %d: %s=%r, original %r" % (r.number, k, r.params.get(k), v))
+        if src.system_attrs.get("fixed_params") != r.system_attrs.get("fixed_params"):
+            return viol("retry-lost-enqueued-values", "trial %d was enqueued with %r; its retry %d carries %r" % (num, src.system_attrs.get("fixed_params"), r.number, r.system_attrs.get("fixed_params")))
         for k, v in src.user_attrs.items():
             if r.user_attrs.get(k) != v:
                 return viol("retry-attrs-differ", "retry %d: user attr %s=%r, original %r" % (r.number, k, r.user_attrs.get(k), v))
         if num not in cbs:
             return viol("retry-without-callback", "trial %d has a retry but the callback was never recorded" % num)
+    for t in trials:
+        fp = t.system_attrs.get("fixed_params")
+        if fp:
+            for k, v in t.params.items():
+                if k in fp and fp[k] != v:
+                    return viol("enqueued-value-not-used", "trial %d: enqueued %s=%r, got %r" % (t.number, k, fp[k], v))
     # a callback that ran (and was allowed to retry) but whose caller survived must have produced the retry
     # finished trials are never touched: a COMPLETE trial keeps its values
     for t in trials:
